@@ -102,6 +102,13 @@ def check(ctx):
             run.fail('TMP', where(repo, n), st.qualname, n, 'rename with unexpected arguments')
             continue
         src, dst = n.args
+        # (a local bound once to the destination - final_filename = filename[:-len(ACTIVE_SUFFIX)] - stands for it)
+        from rules.stream import once_bound as _ob8
+        fn8 = repo.enclosing_func(n)
+        if isinstance(dst, ast.Name) and fn8 is not None:
+            d2 = _ob8(fn8.node, dst)
+            if isinstance(d2, ast.Subscript):
+                dst = d2
         ok = pseudo(src) is not None and root_name(pseudo(src)) == tmpname and tmpname is not None
         # dst = src[:-len(ACTIVE_SUFFIX)]  or the original final name parameter before it was rebound
         okd = False
